@@ -77,7 +77,12 @@ static void case_stats(ByteSource& in, CaseInfo& ci) {
     REQUIRE(c1 < 620 && c2 < 620, "%s: chi-square of the %s 8 bits over %u draws of %llu bits is %.0f (255 degrees of freedom; alarm level 620)", K.desc.c_str(), c1 >= 620 ? "top" : "low", N, (unsigned long long)n, std::max(c1, c2));
     for (uint64_t b = 0; b < n; b++) REQUIRE(std::abs((int)bit[b] - (int)N / 2) <= 8 * 64, "%s: bit %llu of %llu-bit draws is set in %u of %u draws", K.desc.c_str(), (unsigned long long)b, (unsigned long long)n, bit[b], N); }
   else if (shape == 2) { // values modulo m: chi-square over 16 equal bins of [0,m)
-    Int M = in.flag() ? Int::from_u64(in.range(16, 100000)) : ref::pow2(in.range(10, 150)) + Int((long long)in.range(0, 1000)); Z r, m; mpz_from_int(m, M); ci.d("stats %s mpz_urandomm m=%s x%u", K.desc.c_str(), ref::hex(M).c_str(), N);
+    unsigned mk = in.pick({3, 3, 3, 1, 2}); Int M;
+    if (mk == 0) M = Int::from_u64(in.range(16, 100000)); else if (mk == 1) M = ref::pow2(in.range(10, 150)) + Int((long long)in.range(0, 1000));
+    else if (mk == 2) { M = ref::pow2(64 * in.range(1, 3)) + Int::from_u64(in.u64() | (in.flag() ? 1ull << 63 : 1)); ci.label("urandomm:top_limb_one_low_limb_nonzero"); }   // B^j + r: only the top and the lowest limb are non-zero
+    else if (mk == 3) M = ref::pow2(64 * in.range(1, 3) + in.range(0, 63)) + Int::from_u64(in.u64() | 1);
+    else M = in.flag() ? ref::pow2(in.range(10, 200)) * Int(3) : ref::pow2(in.range(10, 200)) - Int(1);
+    Z r, m; mpz_from_int(m, M); ci.d("stats %s mpz_urandomm m=%s x%u", K.desc.c_str(), ref::hex(M).c_str(), N);
     std::vector<unsigned> bin(16, 0); for (unsigned i = 0; i < N; i++) { mpz_urandomm(r, S, m); Int v = int_from_mpz(r); REQUIRE(!v.neg && v < M, "mpz_urandomm out of range"); bin[ref::tdiv(v * Int(16), M).low()]++; }
     double e = N / 16.0, c = 0; for (int i = 0; i < 16; i++) c += (bin[i] - e) * (bin[i] - e) / e; REQUIRE(c < 130, "%s: chi-square of mpz_urandomm over 16 bins is %.0f (15 degrees of freedom; alarm level 130)", K.desc.c_str(), c); }
   else { // 1-bit draws: a linear congruential generator must not expose its short-period low bits
@@ -89,5 +94,5 @@ static void check(ByteSource& in, CaseInfo& ci) { if (in.pick({30, 1}) == 0) cas
 namespace eng {
 PropDef g_prop = {"C19",
   "Cases: (a) histories: a generator of kind mt / lc_2exp(a,c,m2exp 2..300) / lc_2exp_size(1..128) seeded with 0, 1, 2^64-1, random or multi-limb seeds (gmp_randseed or gmp_randseed_ui), then 1..14 draws interleaving mpz_urandomb (n in 0,1,2,31..33,63..65,127..129, around the Mersenne Twister refill boundary 19937+-70, up to 60000), mpz_urandomm (n in 1,2,2^k,2^k+-1,odd limb,multi-limb, rop==n), mpz_rrandomb, mpn_urandomb/urandomm/randomb/rrandom, gmp_urandomb_ui/urandomm_ui, mpf_urandomb; a twin state (same algorithm and seed from the start, or a gmp_randinit_set copy made at a generated point) performs the same calls. (b) statistics batches of 16384 draws (1 in 31 cases): chi-square of the top and low 8 bits, every bit position within 8 sigma, chi-square of mpz_urandomm over 16 bins, and for the linear congruential kinds (table entries and user parameters with a=5 mod 8, c odd, m2exp>=32) the 4096-draw stream of 1-bit values must have no period <= 1024. Oracle: refint range checks (< 2^n, < n, top limb non-zero, 0 <= f < 1), twin equality after every step, fixed acceptance regions with false-alarm probability < 1e-12 per test. Non-trivial: history of >= 2 draws or a statistics batch. Distinct = hash of all decoded choices.",
-  check, nullptr, {"kind:mt", "kind:lc_2exp", "kind:lc_2exp_size", "twin:same_seed", "twin:randinit_set", "seed:multi_limb", "statistics", "one_bit_stream", "mt_refill_boundary_request", "urandomm:rop==n", "mpf_urandomb", "mpn_randomb"}};
+  check, nullptr, {"kind:mt", "kind:lc_2exp", "kind:lc_2exp_size", "twin:same_seed", "twin:randinit_set", "seed:multi_limb", "statistics", "one_bit_stream", "mt_refill_boundary_request", "urandomm:rop==n", "mpf_urandomb", "mpn_randomb", "urandomm:top_limb_one_low_limb_nonzero"}};
 }
